@@ -101,20 +101,19 @@ func genC04(t *rapid.T) c04Case {
 	default:
 		c.Start = rapid.Int64Range(1, 1<<55).Draw(t, "start")
 	}
-	n := rapid.IntRange(1, 40).Draw(t, "nsteps")
-	for i := 0; i < n; i++ {
+	stepGen := rapid.Custom(func(t *rapid.T) c04Step {
 		k := rapid.IntRange(0, 7).Draw(t, "k")
 		switch op := rapid.IntRange(0, 19).Draw(t, "op"); {
 		case op < 7:
 			s := genC04Time(t, false)
 			s.Op, s.K = "sched", k
-			c.Steps = append(c.Steps, s)
+			return s
 		case op < 10:
 			s := genC04Time(t, false)
 			s.Op, s.K = "resched", k
-			c.Steps = append(c.Steps, s)
+			return s
 		case op < 11:
-			c.Steps = append(c.Steps, c04Step{Op: "desched", K: k})
+			return c04Step{Op: "desched", K: k}
 		default:
 			var s c04Step
 			switch rapid.IntRange(0, 5).Draw(t, "advClass") {
@@ -127,9 +126,10 @@ func genC04(t *rapid.T) c04Case {
 				s.Label = "adv-" + s.Label
 			}
 			s.Op = "adv"
-			c.Steps = append(c.Steps, s)
+			return s
 		}
-	}
+	})
+	c.Steps = rapid.SliceOfN(stepGen, 1, 40).Draw(t, "steps")
 	return c
 }
 
